@@ -52,6 +52,7 @@ impl AsyncRichIndexerHandle {
                     let offset = decode_i32(offset)?;
                     last_cursor = Some((last, offset));
                 };
+                let after_cursor = last_cursor;
 
                 let txs = get_tx_with_cell(
                     self.store.db_driver,
@@ -88,6 +89,13 @@ impl AsyncRichIndexerHandle {
                     })
                     .collect::<Vec<_>>();
 
+                // a page that ends inside the transaction the previous page ended in: the
+                // entries of that transaction returned earlier still have to be skipped
+                if let Some((last, offset)) = after_cursor
+                    && last == last_id
+                {
+                    count += offset;
+                }
                 let mut last_cursor = last_id.to_le_bytes().to_vec();
                 let mut offset = count.to_le_bytes().to_vec();
                 last_cursor.append(&mut offset);
